@@ -258,3 +258,14 @@ def _canary_stale_overflow():
 CANARIES = [("overflow buffer filled although the response is read in the same cycle", _canary_overflow_cond),
             ("transparent=True ignored by the read ports", _canary_not_transparent),
             ("read_on_resp: overflow buffer misses later writes", _canary_stale_overflow)]
+
+
+def _callers_items():
+    from transactron.lib import MemoryBank
+
+    return [("MemoryBank(2 bits, depth 4, 1 read / 1 write port)", lambda: MemoryBank(shape=2, depth=4),
+             [("read_req", ["read_req", 0]), ("read_resp", ["read_resp", 0]), ("write", ["write", 0])], [])]
+
+
+from ..excl import install as _install  # noqa: E402
+_install(globals(), _callers_items())
